@@ -197,6 +197,7 @@ def check(prop, tier, seed, nshards):
     merged = {"evaluations": 0, "nontrivial": 0, "ops": {}, "buckets": {}, "samples": [], "violations": [],
               "violation_count": 0, "panics_outside_c04": 0, "extra": {}, "exhaustive": [], "floors": [], "builds": []}
     distinct = set()
+    confirmed_ops = {}
     inconclusive = []
     race_reports = 0
 
@@ -240,6 +241,12 @@ def check(prop, tier, seed, nshards):
                 inconclusive.append(f"shard {i} ({bname}) died (exit {rc[i]}) without a pending call: {tail[-400:]}")
                 continue
             job, idx, op, inp = pend
+            if op in confirmed_ops:
+                # another shard already died in the same operation and the single-case replay
+                # confirmed it: recorded once more without spending another replay
+                v = dict(confirmed_ops[op]); v.update({"job": job, "index": idx, "input_hex": inp.hex()[:140000]})
+                merged["violations"].append(v); merged["violation_count"] += 1
+                continue
             rrc, rout, rdir = replay_case(worker, prop, tier, seed, job, idx)
             confirmed = rrc not in (0, 1) or ("fatal error" in rout or "panic:" in rout)
             if rrc == 124 or (hang and rrc not in (0, 1)):
@@ -249,6 +256,7 @@ def check(prop, tier, seed, nshards):
                      "shape": {"op": op}, "job": job, "index": idx, "seed": seed, "tier": tier,
                      "input_hex": inp.hex()[:140000], "detail": (rout or tail)[-1500:]}
                 merged["violations"].append(v); merged["violation_count"] += 1
+                confirmed_ops[op] = v
             else:
                 # not reproduced alone: re-run the shard once
                 rc2 = run_shards(worker, prop, tier, seed, nshards, outdir, limit, extra_env, [])
